@@ -42,4 +42,18 @@ CHECKS = {
         "level_note": "per-receiver searches assume that what other honest parties emit does not depend on their own delivery order (validated by the global searches on the smaller sizes); N <= 5",
         "budget_s": {"quick": 150, "thorough": 900},
     },
+    "C13": {
+        "pkg": "checks/c13", "level": "exploration", "engine": "E4 bounded-exhaustive + E1",
+        "technique": "exhaustive enumeration: all 65536 identifiers through the real acknowledgement and synchroniser codecs (via public seams of real Schemes/Members), all pairs/triples over the byte-boundary set in full-stack sessions with a differential oracle",
+        "level_text": "codec level is truly exhaustive over the 16-bit identifier range (x rounds x two digests); session level enumerates every pair and a triple cover (thorough: all 364 triples) of boundary identifiers, loud and silent, and compares class traces with the 1..n session",
+        "level_note": "default delivery schedule per session; digests are 32 bytes (what the library produces)",
+        "budget_s": {"quick": 170, "thorough": 900},
+    },
+    "C06": {
+        "pkg": "checks/c06", "level": "model_checking", "engine": "E1 bubble-net",
+        "technique": "stateless model checking: enumeration of membership maps x participant sets x modes, each explored under the default and all <=1-deviation delivery schedules of the real stack with a logging backend",
+        "level_text": "for every listed map (identity, injective incl. order-reversing and 16-bit boundary values, replicas) and participant choice: Init arguments, OnMsg attribution, point-to-point destinations and duplicate-party refusal are checked on every explored schedule of KeyGen and Sign",
+        "level_note": "maps and participant sets from a fixed catalogue; Go map iteration order inside computeMembership is not owned: replica cells are repeated 16 times",
+        "budget_s": {"quick": 150, "thorough": 900},
+    },
 }
